@@ -21,13 +21,14 @@
 (*                                                                             *)
 (* Decoders return a record [cls, wc, hash] where cls is                       *)
 (*   "ok"   a well-formed form of the account (wc, hash): must be accepted     *)
-(*   "bad"  48 base64 digits whose checksum does not match: must be rejected   *)
-(*          (this is what makes every single-character substitution fail)      *)
+(*   "bad"  48 base64 digits whose checksum does not match (this is what makes *)
+(*          every single-character substitution fail), or a TL byte stream     *)
+(*          that ends before the 36th byte of an id: must be rejected          *)
 (*   "free" a form the statement of C17 does not decide (mixed alphabets,      *)
 (*          unknown tag byte with a correct checksum, "+5" / "007" as          *)
 (*          workchain): may be rejected; if accepted the result is (wc, hash)  *)
 (*   "lax"  not a form of any account according to the documentation (wrong    *)
-(*          length, foreign characters, too many hex digits, truncated bytes); *)
+(*          length, foreign characters, too many hex digits, truncated cell);  *)
 (*          C17 only demands rejection of checksum failures, so acceptance is  *)
 (*          not a violation - the runner lists it as an observation            *)
 (*   "any"  outside the documentation altogether (white space, padding)        *)
@@ -157,10 +158,19 @@ JsonDecode(s) ==
   IF Len(c) >= 2 /\ c[1] = 34 /\ c[Len(c)] = 34 /\ \A i \in 2..(Len(c) - 1) : c[i] >= 32 /\ c[i] \notin {34, 92} /\ c[i] < 127
   THEN ParseAny(CodesToStr(SubSeq(c, 2, Len(c) - 1))) ELSE AnyForm
 
-\* TL
+\* TL.  The bytes arrive through a stream (io.Reader): a delivery is any split of the byte sequence into
+\* chunks, one per read call, the last one possibly announced together with end-of-stream.  What is
+\* decoded depends on the byte sequence only, never on the delivery: the k-th id of a stream is decoded
+\* from bytes 36(k-1)+1 .. 36k, and a stream that ends inside (or before) an id has no such id - a
+\* decoder that returns a value for it has invented an account, so truncation must be an error.
 TlBytes(wc, hash) == Reverse(BitsToBytes(IntBits(wc, 32))) \o hash
-TlDecode(bytes) == IF Len(bytes) < 36 THEN LaxForm
+TlDecode(bytes) == IF Len(bytes) < 36 THEN BadForm
                    ELSE [cls |-> "ok", wc |-> IntDec(BytesToBits(Reverse(SubSeq(bytes, 1, 4)))), hash |-> SubSeq(bytes, 5, 36)]
+TlStreamDecode(bytes, n) ==
+  [k \in 1..n |-> TlDecode(IF 36 * (k - 1) >= Len(bytes) THEN <<>> ELSE SubSeq(bytes, 36 * (k - 1) + 1, Len(bytes)))]
+\* the chunks of a delivery cut after the given positions (ascending, inside 1..Len-1); their concatenation is bytes
+Chunks(bytes, cuts) ==
+  LET b == <<0>> \o cuts \o <<Len(bytes)>> IN [i \in 1..(Len(b) - 1) |-> SubSeq(bytes, b[i] + 1, b[i + 1])]
 
 \* TL-B addr_std; an anycast is [d |-> depth, p |-> rewrite_pfx as d bits], d = 0 for "nothing"
 NoAnycast == [d |-> 0, p |-> <<>>]
